@@ -216,6 +216,81 @@ impl AbsFilter {
 //@ end
 }
 
+// ---------------- floor / ceil / round ----------------
+pub struct FloorFilter;
+pub struct CeilFilter;
+pub open spec fn input_float(input: &dyn ValueView) -> Option<f64> {
+    match input.scalar_of() { Some(s) => s.flt_view(), None => None }
+}
+impl FloorFilter {
+//@ item ''' + F + ''' :: impl Filter for FloorFilter::evaluate
+//@ props C15 C02
+//@ safety C02 C15
+//@ sig fn evaluate(&self, input: &dyn ValueView, _runtime: &dyn Runtime) -> (res: Result<Value>)
+//@ spec
+    ensures
+        res matches Ok(v) ==> (input_float(input) matches Some(f) && v.num() == Some(Num::Int(f64_to_i64(f64_floor(f))))),    // [C15:floor_is_floor_then_cast]
+        input_float(input) is Some ==> res is Ok,                                                                             // [C15:floor_total_on_numbers]
+//@ editall << as i64>> => <<.sat_i64()>> why: Verus leaves the float->int `as` cast unspecified; stand-in method with an uninterpreted result
+//@ closure 0 arg_of=and_then params=s
+|s: ScalarCow| -> (o: Option<f64>) ensures o == s.flt_view()
+//@ closure 1 arg_of=ok_or_else params=
+|| -> (e: Error)
+//@ end
+}
+impl CeilFilter {
+//@ item ''' + F + ''' :: impl Filter for CeilFilter::evaluate
+//@ props C15 C02
+//@ safety C02 C15
+//@ sig fn evaluate(&self, input: &dyn ValueView, _runtime: &dyn Runtime) -> (res: Result<Value>)
+//@ spec
+    ensures
+        res matches Ok(v) ==> (input_float(input) matches Some(f) && v.num() == Some(Num::Int(f64_to_i64(f64_ceil(f))))),     // [C15:ceil_is_ceil_then_cast]
+        input_float(input) is Some ==> res is Ok,                                                                             // [C15:ceil_total_on_numbers]
+//@ editall << as i64>> => <<.sat_i64()>> why: Verus leaves the float->int `as` cast unspecified; stand-in method with an uninterpreted result
+//@ closure 0 arg_of=and_then params=s
+|s: ScalarCow| -> (o: Option<f64>) ensures o == s.flt_view()
+//@ closure 1 arg_of=ok_or_else params=
+|| -> (e: Error)
+//@ end
+}
+
+// round: n <= 0 decimal places -> round then cast; n > 0 -> (x * 10^n).round() / 10^n
+pub struct RoundArgs { pub e: u8 }
+pub struct EvaluatedRoundArgs { pub decimal_places: Option<i64> }
+impl RoundArgs {
+    #[verifier::external_body]
+    pub fn evaluate(&self, runtime: &dyn Runtime) -> (r: Result<EvaluatedRoundArgs>)
+        ensures r matches Ok(e) ==> round_arg(self, runtime) == Some(e.decimal_places),
+                r is Err ==> round_arg(self, runtime) is None
+    { unimplemented!() }
+}
+pub uninterp spec fn round_arg(a: &RoundArgs, rt: &dyn Runtime) -> Option<Option<i64>>;
+pub struct RoundFilter { pub args: RoundArgs }
+pub open spec fn places(a: Option<i64>) -> int { match a { Some(n) => n as int, None => 0 } }
+impl RoundFilter {
+//@ item ''' + F + ''' :: impl Filter for RoundFilter::evaluate
+//@ props C15 C02
+//@ safety C02 C15
+//@ sig fn evaluate(&self, input: &dyn ValueView, runtime: &dyn Runtime) -> (res: Result<Value>)
+//@ spec
+    ensures
+        res matches Ok(v) ==> (round_arg(&self.args, runtime) matches Some(a) && input_float(input) matches Some(f) && (
+            (places(a) <= 0 ==> v.num() == Some(Num::Int(f64_to_i64(f64_round(f)))))                                          // [C15:round_to_integer_is_round_then_cast]
+            && (places(a) > 0 ==> v.num() matches Some(Num::Flt(_))))),                                                       // [C15:round_to_places_is_float]
+        (round_arg(&self.args, runtime) matches Some(a) && input_float(input) is Some && places(a) <= i32::MAX) ==> res is Ok, // [C15:round_total_on_numbers]
+//@ prologue
+    broadcast use group_f64_total;
+//@ editall << as i64>> => <<.sat_i64()>> why: Verus leaves the float->int `as` cast unspecified; stand-in method with an uninterpreted result
+//@ closure 0 arg_of=and_then params=s
+|s: ScalarCow| -> (o: Option<f64>) ensures o == s.flt_view()
+//@ closure 1 arg_of=ok_or_else params=
+|| -> (e: Error)
+//@ closure 2 arg_of=map_err params=_
+|_e: core::num::TryFromIntError| -> (e: Error)
+//@ end
+}
+
 } // verus!
 fn main() {}
 ''')
